@@ -939,17 +939,20 @@ class Crystal(object):
         modified = False
         # check the possible vector reductions (edited to handle 2 and 3 dimensions)
         asq = np.dot(self.lattice.T, self.lattice)
-        u = np.around(asq[0, 1] / asq[0, 0])
+        # a ratio of +-1/2 (to within roundoff) is already minimal: reducing it would only flip its sign,
+        # and roundoff can then flip it back forever (e.g., hexagonal cells in a general orientation)
+        def nearestint(x): return np.around(x) if abs(x) > 0.5 + self.threshold else 0.
+        u = nearestint(asq[0, 1] / asq[0, 0])
         if u != 0:
             super[0, 1] = -int(u)
             modified = True
         elif self.dim > 2:
-            u = np.around(asq[0, 2] / asq[0, 0])
+            u = nearestint(asq[0, 2] / asq[0, 0])
             if u != 0:
                 super[0, 2] = -int(u)
                 modified = True
             else:
-                u = np.around(asq[1, 2] / asq[1, 1])
+                u = nearestint(asq[1, 2] / asq[1, 1])
                 if u != 0:
                     super[1, 2] = -int(u)
                     modified = True
